@@ -241,6 +241,15 @@ func (j *Join) ParallelJoinFunc(l, r *HashedTable) ([]any, error) {
 		wg.Add(1)
 		go func(lk string, lv *map[string]any) {
 			defer wg.Done()
+			defer func() {
+				if r := recover(); r != nil {
+					mut.Lock()
+					if firstErr == nil {
+						firstErr = recoveredError(r)
+					}
+					mut.Unlock()
+				}
+			}()
 			switch ok, matches, err := j.JoinMatchFunc(lk, lv, l, r); {
 			case ok:
 				{
@@ -334,6 +343,15 @@ func (j *Join) ParallelHashJoinFunc(l, r *HashedTable) ([]any, error) {
 		wg.Add(1)
 		go func(lk string) {
 			defer wg.Done()
+			defer func() {
+				if r := recover(); r != nil {
+					mut.Lock()
+					if firstErr == nil {
+						firstErr = recoveredError(r)
+					}
+					mut.Unlock()
+				}
+			}()
 			switch ok, matches, err := j.HashJoinMatchFunc(lk, l, r); {
 			case ok:
 				{
